@@ -70,6 +70,7 @@ class Path:
 
 
 # private helpers that rules analyse by name (their own paths, guards and yields): a call to them stays a call
+ANCHORED_TABLES = {"_UNRESOLVABLE", "_COLLECTIONS", "_UNWRAPPABLE", "_MAPPING_TYPES", "BUILTIN_TYPES", "STDLIB_TYPES", "BUILTIN_TYPES_TUPLE", "STDLIB_TYPES_TUPLE", "GENERIC_TYPE_MAP", "_GENERICS", "_HANDLERS", "_BINDING_CLS_MATRIX", "_stack"}
 NOT_INLINED = {"typelib.graph._level", "typelib.serdes._make_fields_iterator", "typelib.serdes._is_iterable_of_pairs", "typelib.binding._get_binding", "typelib.py.inspection._hints_from_signature", "typelib.py.refs._resolve_module_name", "typelib.serdes._isoformat_duration"}
 
 
@@ -339,6 +340,12 @@ class Evaluator:
         parts = []
         for op, c in zip(e.ops, e.comparators):
             right = self.expr(c, env)
+            if isinstance(op, (ast.In, ast.NotIn)) and right[0] == "ref" and right[1].startswith("typelib.") and right[1].rsplit(".", 1)[-1] not in ANCHORED_TABLES:
+                # membership in a display that has been given a name at module level (`child in _UNTYPED`) is membership in
+                # that display; the tables rules anchor on by name stay names
+                items = flatten_display(self.prog, right)
+                if items is not None and 1 <= len(items) <= 12 and not any(x[0] == "star" for x in items):
+                    right = ("tuple", tuple(items))
             parts.append(("cmp", _CMP[type(op)], left, right))
             left = right
         return parts[0] if len(parts) == 1 else ("boolop", "and", tuple(parts))
